@@ -690,6 +690,11 @@ class Interp(Ops):
         if not o.symbolic and attr in self.tenv.fields_of(o.cls):
             raise_("AttributeError", f"{o.cls}.{attr} is not set")
         if not o.symbolic and ci is not None:
+            dv = self.init_derived_value(ci, attr, o)
+            if dv is not None:
+                self.st.heap[(o.ref, attr)] = dv
+                self.st.notes.append(f"attribute {o.cls}.{attr} derived from other attributes as in __init__ (not in the sidecar shape)")
+                return dv
             t = self.init_assigned_type(ci, attr)
             if t is not None:
                 # an instance attribute the sidecar does not know: assigned in __init__ from an annotated parameter
@@ -698,6 +703,41 @@ class Interp(Ops):
                 self.st.notes.append(f"attribute {o.cls}.{attr} taken from __init__ (not in the sidecar shape)")
                 return v
         raise Unsupported(f"attribute {o.cls}.{attr}")
+
+    def init_derived_value(self, ci, attr, o):
+        """`self.attr = <pure expression over other attributes of self>` in __init__ (no parameter involved): an attribute the
+        sidecar does not know is that expression of the object's current attributes (a cache computed once at construction)"""
+        init = self.repo.find_method(ci, "__init__")
+        if init is None:
+            return None
+        params = {a.arg for a in (init.node.args.posonlyargs + init.node.args.args + init.node.args.kwonlyargs)} - {"self"}
+        for st_ in ast.walk(init.node):
+            tgt = None
+            if isinstance(st_, ast.Assign) and len(st_.targets) == 1:
+                tgt, val = st_.targets[0], st_.value
+            elif isinstance(st_, ast.AnnAssign) and st_.value is not None:
+                tgt, val = st_.target, st_.value
+            if tgt is None or not (isinstance(tgt, ast.Attribute) and isinstance(tgt.value, ast.Name) and tgt.value.id == "self"
+                                   and tgt.attr == attr):
+                continue
+            names = {n.id for n in ast.walk(val) if isinstance(n, ast.Name)}
+            if names & params or "self" not in names:
+                return None
+            if any(isinstance(n, (ast.Await, ast.Call)) and not (isinstance(n, ast.Call) and isinstance(n.func, ast.Name)
+                                                                    and n.func.id in ("tuple", "frozenset", "set", "list", "len", "sorted"))
+                   for n in ast.walk(val) if isinstance(n, (ast.Await, ast.Call))):
+                return None
+            fr = Frame(init, None, cls=ci)
+            fr.vars["self"] = o
+            saved = self.spec_mode
+            self.spec_mode = True
+            try:
+                return self.eval(val, fr)
+            except (Unsupported, PyRaise):
+                return None
+            finally:
+                self.spec_mode = saved
+        return None
 
     def init_assigned_type(self, ci, attr):
         init = self.repo.find_method(ci, "__init__")
@@ -1414,6 +1454,25 @@ class Interp(Ops):
     def assign_target(self, t, v: V, fr: Frame):
         if isinstance(t, ast.Name):
             fr.assign(t.id, v)
+        elif isinstance(t, (ast.Tuple, ast.List)) and any(isinstance(x, ast.Starred) for x in t.elts) and isinstance(v, VSeq):
+            # a, *rest = <symbolic list>   (one starred target, at the end): first elements by index, the remainder as a NEW list
+            if not (isinstance(t.elts[-1], ast.Starred) and sum(isinstance(x, ast.Starred) for x in t.elts) == 1):
+                raise Unsupported("starred target not in last position")
+            k = len(t.elts) - 1
+            cur = self.st.heap[(v.ref, "seq")]
+            if self.st.branch(z3.Length(cur) < k):
+                raise_("ValueError", "not enough values to unpack")
+            from .loops import named_subseq
+            for i, x in enumerate(t.elts[:-1]):
+                e = cur[i]
+                self.assign_target(x, VObj(v.elem[1], e) if v.elem[0] in ("obj", "symobj") else wrap(v.elem, e), fr)
+            ref = self.st.new_ref()
+            rest = z3.SubSeq(cur, k, z3.Length(cur) - k)
+            cc = getattr(self, "current_contract", None)
+            if cc is not None and getattr(cc, "seq_lemmas", False):
+                rest = named_subseq(self.st, cur, z3.IntVal(k), z3.Length(cur) - k, rest)
+            self.st.heap[(ref, "seq")] = rest
+            self.assign_target(t.elts[-1].value, VSeq(ref, v.elem), fr)
         elif isinstance(t, (ast.Tuple, ast.List)):
             items = self.unpack(v, len(t.elts))
             for x, y in zip(t.elts, items):
